@@ -736,6 +736,16 @@ func writeVariant(s sink, sub *subject, v int) {
 				noteInvariant(fmt.Sprintf("SQL()/Pos()/End() of two structurally identical trees differ: edited tree %q %s, deep copy of it %q %s", clip(t1), p1, clip(t2), p2))
 			}
 		})
+		// an edit that leaves a hole (a node was moved elsewhere): SQL() of such a tree panics
+		// part-way through; the caller recovers, and everything after must be unaffected
+		each(func(i int, top ast.Node) {
+			guard(s, "punch hole", func() { punchHole(top) })
+			guard(s, "SQL(tree with a hole)", func() { s.str(top.SQL()) })
+		})
+		if len(graft.nodes) == 1 && !isNilNode(graft.nodes[0]) {
+			guard(s, "SQL(after the hole)", func() { s.str(graft.nodes[0].SQL()) })
+			writeBase(s, callEntry(eParseQuery, sub.path, "SELECT a, b, c FROM t WHERE a IN (1, 2, 3) ORDER BY a, b"))
+		}
 	case vSubSQL:
 		each(func(i int, top ast.Node) {
 			guard(s, "Inspect", func() {
@@ -844,6 +854,47 @@ func editTree(top ast.Node, graft *subject) {
 			})
 		}
 	}
+}
+
+// punchHole sets the last element of the first node list with two or more elements to nil.
+func punchHole(top ast.Node) {
+	done := false
+	seen := map[uintptr]bool{}
+	var rec func(v reflect.Value, depth int)
+	rec = func(v reflect.Value, depth int) {
+		if done || depth > 200 {
+			return
+		}
+		switch v.Kind() {
+		case reflect.Interface:
+			if !v.IsNil() {
+				rec(v.Elem(), depth+1)
+			}
+		case reflect.Pointer:
+			if v.IsNil() || seen[v.Pointer()] {
+				return
+			}
+			seen[v.Pointer()] = true
+			rec(v.Elem(), depth+1)
+		case reflect.Struct:
+			for i := 0; i < v.NumField() && !done; i++ {
+				if v.Type().Field(i).IsExported() {
+					rec(v.Field(i), depth+1)
+				}
+			}
+		case reflect.Slice:
+			et := v.Type().Elem()
+			if (et.Kind() == reflect.Pointer || et.Kind() == reflect.Interface) && et.Implements(nodeType) && v.Len() >= 2 {
+				v.Index(v.Len() - 1).Set(reflect.Zero(et))
+				done = true
+				return
+			}
+			for i := 0; i < v.Len() && !done; i++ {
+				rec(v.Index(i), depth+1)
+			}
+		}
+	}
+	rec(reflect.ValueOf(top), 0)
 }
 
 // deepCopy returns a structurally identical value made of fresh pointers and slices
